@@ -320,6 +320,11 @@ def judge(name, data, text, L, kind, res, part):
             undefined_form = any(t_ in fmt for t_ in (
                 "prc", "prl", "src", "srl", "il", "rl", "vswr", "db")) and \
                 any(abs(complex(*z)) == 0 for row in out["data"] for z in row)
+            # an R-C / R-L equivalent has no defined C or L at 0 Hz either
+            # (C = Im(Y) / omega = 0 / 0): the saved field is NaN by arithmetic
+            if any(t_ in fmt for t_ in ("prc", "prl", "src", "srl")) and \
+                    any(f_ == 0 for f_ in out["freq"]):
+                undefined_form = True
             if undefined_form:
                 cnt["undefined_form_not_compared"] = cnt.get(
                     "undefined_form_not_compared", 0) + 1
